@@ -11,7 +11,7 @@ def collect(o, pid, tier):
     sd = seed()
     wd = workdir(pid, 'traces')
     tr = wd / 'quant.ndjson'
-    r = tlc('MCQuantile', 'MCQuantile.cfg', pid, 'quant_cases', workers=1, timeout=600, heap='2g',
+    r = tlc('MCQuantile', 'MCQuantile.cfg', pid, 'quant_cases', workers=1, timeout=1800, heap='2g', env={'TIER': tier},
             pipe_to=[str(RDV), 'quant-drive', '--seed', str(sd), '--out', str(tr)])
     require_ok(r, 'MCQuantile')
     s = json.loads(r.consumer_out.strip().splitlines()[-1])
@@ -20,7 +20,7 @@ def collect(o, pid, tier):
     o.add_tlc(r, 'MCQuantile: table sanity (ASSUME TableOK) and case generation')
     o.extra['quantile_drive'] = s
     o.evaluations += s['calls']
-    rr = tlc('TraceQuantile', 'TraceQuantile.cfg', pid, 'quant_trace', trace_mode=True, env={'TRACE': tr}, timeout=1200, heap='4g')
+    rr = tlc('TraceQuantile', 'TraceQuantile.cfg', pid, 'quant_trace', trace_mode=True, env={'TRACE': tr, 'TIER': tier}, timeout=1200, heap='4g')
     require_ok(rr, 'TraceQuantile')
     if rr.rejected or rr.violated:
         raise ToolError('quantile trace not consumed: %s' % (rr.rejected or rr.violated))
